@@ -201,6 +201,19 @@ def run(ctx):
             param = {"mnemonic": rnd.choice([12, 15, 18, 21, 24]), "hex": rnd.randrange(16, 65), "pwd": rnd.randrange(20, 87)}.get(app)
             c.update({"app": app, "param": param, "index": rnd.choice(idx_set(rnd))})
             judge_output(ctx, c, tap)
+        # ---- same object, random order, parameters that collide across applications (hex N <-> pwd N <-> words N, same index)
+        for _ in range(ctx.scale(24, 3000)):
+            m2 = gen_master(rnd)
+            seq = []
+            for _k in range(rnd.randrange(6, 14)):
+                N = rnd.choice([24, 32, 40, 64])
+                i = rnd.choice([0, 1, 7])
+                seq += rnd.sample([("hex", N, i), ("pwd", N, i), ("mnemonic", rnd.choice([12, 24]), i), ("wif", None, i), ("xprv", None, i),
+                                   ("hex", N, i + 1), ("pwd", N, i)], rnd.randrange(2, 4))
+            for app, param, index in seq:
+                c = dict(m2)
+                c.update({"app": app, "param": param, "index": index})
+                judge_output(ctx, c, tap)
         # ---- rejection
         m = gen_master(rnd)
         rej = []
